@@ -15,6 +15,9 @@ func init() {
 		ruleDef{"C08.R5", c08r5},
 		ruleDef{"C08.R6", c08r6},
 		ruleDef{"C08.R8", c08r8},
+		// a body also passes only if every frame of a live stream is processed: after a graceful GOAWAY only frames of
+		// streams *above* the last accepted one are discarded (shared with C13)
+		ruleDef{"C13.R3", c13r3},
 	)
 }
 
